@@ -28,7 +28,7 @@ for d in sorted(glob.glob('/tmp/seeded_out/C*/[a-z]')):
             'repository_suite_passes_with_patch': j.get('suite_passes_with_patch'),
             'demo_passes_on_unchanged_tree': j.get('demo_passes_unchanged'),
             'demo_fails_with_patch': j.get('demo_fails_with_patch'),
-            'how': 'tools/eval_seeded.py: scratch worktree of /repo for the demo and the suite; patch applied to /repo, checks run, git checkout -- .',
+            'how': 'tools/eval_seeded.py: scratch worktree of /repo for the demo and the suite; the checks run in a private mount namespace in which a scratch worktree with the patch and a copy of the committed /verif are bind-mounted over /repo and /verif (tools/eval_patch.py)',
         },
         'detected_by': {k: {'tier': v['tier'], 'first_signature': (v['lines'] or [''])[0].strip()[:300]} for k, v in caught.items()},
         'caught_by_own_check_quick': j.get('caught_by_own_check_quick'),
